@@ -495,6 +495,10 @@ def lexical_mutants(r, S):
         return "\n".join(l2)
     for ch in ["@", "~", "&", "$", "%", "^"]:
         out.append(("illegal_character", "character %s" % ch, with_line(i, ch), {"code": 33, "quoted": "(%s)" % ch, "line": i + 1}))
+    # encoded string literals: a non-hex digit is reported once, with that digit; the length complaint only for a wrong length
+    for lit, bad, code in (('"0000G041"', "(G)", 30), ('"000000Z1"', "(Z)", 30), ('"0000041"', "(7)", 31), ('"00000041000"', "(11)", 31)):
+        out.append(("encoded_string", "encoded string literal %s" % lit,
+                    with_line(i, "TYPE zz_enc = STRING; WHERE wz : SELF <> %s; END_TYPE;" % lit), {"code": code, "quoted": bad, "line": i + 1, "only_codes": [code]}))
     # not in the EXPRESS character set either; the scanner treats them as white space (open finding)
     for ch in ["`", "!"]:
         out.append(("unrecognized_character", "character %s" % ch, with_line(i, ch), {"code": 33, "quoted": "(%s)" % ch, "line": i + 1}))
